@@ -398,6 +398,12 @@ func runVer1(c *core.Ctx) {
 		}
 	})
 	wantEq := []string{idBin, "call:crypto/sha256.Sum256(" + serPath + ")"}
+	// authenticity told as an error: `Verify` answers `err == nil` for the error of a checking method
+	// (`Check() error`, every reason joined) — "may be true" is then "that method may return nil"
+	if chk := ver1ErrorForm(ver); chk != nil {
+		runVer1Err(c, ver, chk)
+		return
+	}
 	nTrue := 0
 	for _, rb := range an.ReturnBlocks(ver) {
 		r := an.LastInstr(rb).(*ssa.Return)
@@ -794,4 +800,149 @@ func runeBranchOf(esc *ssa.Function) *runeBranch {
 	}
 	walk(an.Path{rb.decode.Block()})
 	return rb
+}
+
+// ver1ErrorForm: every result of ver that is not the constant false is `g(recv) == nil` for one
+// method g of the event that returns an error. nil otherwise.
+func ver1ErrorForm(ver *ssa.Function) *ssa.Function {
+	var g *ssa.Function
+	n := 0
+	for _, rb := range an.ReturnBlocks(ver) {
+		r := an.LastInstr(rb).(*ssa.Return)
+		if isConstBool(r.Results[0], false) {
+			continue
+		}
+		n++
+		bo, ok := r.Results[0].(*ssa.BinOp)
+		if !ok || bo.Op != token.EQL || !an.IsNilConst(bo.Y) {
+			return nil
+		}
+		call, ok := bo.X.(*ssa.Call)
+		if !ok || len(call.Call.Args) != 1 || an.PathOf(call.Call.Args[0]) != "recv" {
+			return nil
+		}
+		h := an.StaticCallee(&call.Call)
+		if h == nil || !an.InModuleFn(h) || recvTypeName(h) != "Event" || h.Signature.Results().Len() != 1 ||
+			!types.Identical(h.Signature.Results().At(0).Type(), types.Universe.Lookup("error").Type()) {
+			return nil
+		}
+		if g != nil && g != h {
+			return nil
+		}
+		g = h
+	}
+	if n == 0 {
+		return nil
+	}
+	return g
+}
+
+// errMayBeNil: the error value v, as resolved along path p, can be nil. Values that cannot: made by
+// fmt.Errorf / errors.New, a concrete error boxed here, a package error variable, and errors.Join of
+// arguments one of which cannot.
+func errMayBeNil(v ssa.Value, p an.Path, depth int) bool {
+	v = resolveRet(v, p)
+	if depth > 4 {
+		return true
+	}
+	// (a variable assigned on one branch: the edge the path took)
+	if ph, isPhi := v.(*ssa.Phi); isPhi {
+		for i := len(p) - 1; i >= 1; i-- {
+			if p[i] != ph.Block() {
+				continue
+			}
+			for j, pb := range ph.Block().Preds {
+				if pb == p[i-1] && j < len(ph.Edges) {
+					return errMayBeNil(ph.Edges[j], p[:i], depth+1)
+				}
+			}
+			break
+		}
+		return true
+	}
+	if definitelyError(v) {
+		return false
+	}
+	if call, ok := v.(*ssa.Call); ok && an.CalleeName(&call.Call) == "errors.Join" && len(call.Call.Args) == 1 {
+		if elems, okE := an.VariadicElems(call.Call.Args[0]); okE {
+			for _, el := range elems {
+				if ci, isCI := el.(*ssa.ChangeInterface); isCI {
+					el = ci.X
+				}
+				if !errMayBeNil(el, p, depth+1) {
+					return false
+				}
+			}
+		}
+	}
+	return true
+}
+
+func runVer1Err(c *core.Ctx, ver, chk *ssa.Function) {
+	P := c.P
+	c.CountFuncs(1)
+	const hexDec = "call:encoding/hex.DecodeString("
+	idBin := hexDec + "recv.ID)#0"
+	schn := "github.com/btcsuite/btcd/btcec/v2/schnorr."
+	serPath := ""
+	an.Region(chk, nil, func(o an.Occ) {
+		if call, ok := o.In.(*ssa.Call); ok && strings.HasSuffix(an.CalleeName(&call.Call), "mocrelay.Event).Serialize") {
+			serPath = o.Path(call) + "#0"
+		}
+	})
+	hash := "call:crypto/sha256.Sum256(" + serPath + ")"
+	sigOver := func(h string) string {
+		return "call:(*" + schn + "Signature).Verify(call:" + schn + "ParseSignature(" + hexDec + "recv.Sig)#0)#0," + h + ",call:" + schn + "ParsePubKey(" + hexDec + "recv.Pubkey)#0)#0)"
+	}
+	// the signed message: the id bytes, or the hash they are compared with
+	wantCalls := map[string]bool{sigOver(idBin): true, sigOver(hash): true}
+	eqs := map[string]bool{"call:bytes.Equal(" + idBin + "," + hash + ")": true, "call:bytes.Equal(" + hash + "," + idBin + ")": true}
+	nNil := 0
+	for _, rb := range an.ReturnBlocks(chk) {
+		r := an.LastInstr(rb).(*ssa.Return)
+		paths, ok := an.PathsTo(chk, rb, 4096)
+		if !ok {
+			c.Unknown(nil, fname(c, chk), "return#may-be-nil", P.Pos(r.Pos()), "too many paths")
+			return
+		}
+		c.CountPaths(len(paths))
+		sigOK, idOK, any := true, true, false
+		var seen []string
+		for _, p := range paths {
+			if !an.Feasible(p) || !errMayBeNil(an.ReturnValues(r)[0], p, 0) {
+				continue
+			}
+			any = true
+			hasSig, hasEq := false, false
+			for _, cd := range p.Conds() {
+				v, pol := stripNot(cd.V, cd.True)
+				if !pol {
+					continue
+				}
+				vp := an.PathOf(v)
+				if wantCalls[vp] {
+					hasSig = true
+				}
+				if strings.HasPrefix(vp, "call:bytes.Equal(") {
+					seen = append(seen, vp)
+					if eqs[vp] {
+						hasEq = true
+					}
+				}
+			}
+			sigOK, idOK = sigOK && hasSig, idOK && hasEq
+		}
+		if !any {
+			continue
+		}
+		nNil++
+		c.CountSites(1)
+		c.Check(sigOK, nil, fname(c, chk), "return#may-be-nil/value", P.Pos(r.Pos()),
+			"every way to a nil error has taken the true edge of schnorr.Verify(sig←Sig, hash←ID bytes or the hash they equal, key←Pubkey)",
+			"the check can answer nil (authentic) on a way that has not taken the true edge of the Schnorr verdict over the event's own id / hash, signature and public key")
+		c.Check(idOK && serPath != "", nil, fname(c, chk), "return#may-be-nil/id-check", P.Pos(r.Pos()),
+			"every way to a nil error has taken the true edge of bytes.Equal(hex(ID), sha256(Serialize(ev))) over the whole values",
+			fmt.Sprintf("the check can answer nil (authentic) on a way that has not found hex(ID) == sha256(Serialize(ev)) (bytes.Equal of %s and %s); comparisons found: %v", idBin, hash, uniq(seen)))
+	}
+	c.Check(nNil >= 1, nil, fname(c, ver), "returns", P.Pos(ver.Pos()), fmt.Sprintf("Verify is %s() == nil; %d return(s) of it can be nil, each one checked", chk.Name(), nNil), "no return of the check can be nil: no event is authentic")
 }
